@@ -208,9 +208,12 @@ def check_matrix(case, ctx):
             ctx.violation('computed-from-the-lines-own-posteriors', f'{K}/get_line_confidence/float32',
                           f'rows {rows}, labels {labels}: float32 logits give {g32}, float64 logits {g64}')
             return
-    if not np.array_equal(l32.logits.toarray(), keep) or l32.logits.dtype != np.float32:
-        ctx.violation('computed-from-the-lines-own-posteriors', f'{K}/confidence-call-modifies-stored-logits',
-                      f'rows {rows}: the logits stored on the line changed while computing confidences')
+    c32c = float(PageParser.compute_line_confidence(l32))
+    ctx.executed()
+    if c32c != c32:
+        ctx.violation('computed-from-the-lines-own-posteriors', f'{K}/compute_line_confidence/changes-after-other-confidence-calls',
+                      f'rows {rows}: line confidence {c32} before and {c32c} after the per-character confidences of the same line were computed '
+                      f'(stored logits modified: {not np.array_equal(l32.logits.toarray(), keep)})')
         return
     ctx.tag('float32-logits')
     # ---- history on one TextLine object: after new logits are assigned, every confidence is computed from the NEW logits
@@ -256,12 +259,12 @@ def check_matrix(case, ctx):
         if conf.shape != (len(labels),) or not in01(conf):
             ctx.violation('in-unit-interval', f'{K}/get_line_confidence/range', f'rows {rows}, labels {labels}: {conf}', sub)
             continue
-        # a caller that holds the log-posteriors itself and scores several transcriptions against them: the matrix is only read
+        # a caller that holds the log-posteriors itself and scores several transcriptions against them: its second use of the same matrix gives the same confidences
         mine = logp.copy()
         ca = np.asarray(get_line_confidence(line, lab, aligned, mine), dtype=float)
         cb = np.asarray(get_line_confidence(line, lab, aligned, mine), dtype=float)
         ctx.executed(2)
-        if not np.array_equal(mine, logp) or ca.shape != conf.shape or np.abs(ca - conf).max() > TOL or np.abs(cb - conf).max() > TOL:
+        if ca.shape != conf.shape or cb.shape != conf.shape or np.abs(ca - conf).max() > TOL or np.abs(cb - conf).max() > TOL:
             ctx.violation('computed-from-the-lines-own-posteriors', f'{K}/get_line_confidence/caller-supplied-log-probs',
                           f'rows {rows}, labels {labels}: with the log-posteriors passed in by the caller the first call gives {ca}, the second {cb} '
                           f'(without: {conf}); matrix modified: {not np.array_equal(mine, logp)}', sub)
